@@ -397,8 +397,51 @@ def run(rep, ix, tier):
     check_ladder(rep, ix)
     check_rows(rep, ix)
     check_eb(rep, ix)
+    check_text_length(rep, ix)
+    rep.floor('R-C08-TEXTLEN', 7)
     rep.floor('R-C08-WRITABLE', 18)
     rep.floor('R-C08-PREAMBLE', 11)
     rep.floor('R-C08-LADDER', 9)
     rep.floor('R-C08-ROWS', 14)
     rep.floor('R-C08-EB', 30)
+
+
+def check_text_length(rep, ix):
+    """A text cell (rep code 65) carries its own length, and zero is a legal length (an empty cell): the readers must
+    distinguish "no length given" (None) from the length 0, and the table reader must pass the block's size."""
+    RC = 'TotalDepth.LIS.core.RepCode'
+    rm = ix.module(RC)
+    for fn in ('readRepCode', 'readBytes'):
+        f = ix.get_func(RC, fn)
+        rep.fn(f'{RC}:{fn}')
+        ln = f.args.args[2].arg
+        dflt = f.args.defaults[-1] if f.args.defaults else None
+        guards = [n for n in walk_no_nested(f) if isinstance(n, ast.If) and n.body and isinstance(n.body[0], ast.Raise) and 'ExceptionRepCodeNoLength' in _n(n.body[0])]
+        ok = len(guards) == 1 and show(nf(guards[0].test)) == common.nfs(f'{ln} is None') and isinstance(dflt, ast.Constant) and dflt.value is None
+        rep.ob('R-C08-TEXTLEN', f'{RC}:{fn}', 'a text value is refused only when no length is given (None); the length 0 is an empty text', ok,
+               found=_n(guards[0].test) if guards else 'no guard', required=f'{ln} is None', node=f, module=rm)
+        # the guard is under the text rep code test
+        outer = [n for n in walk_no_nested(f) if isinstance(n, ast.If) and show(nf(n.test)) == common.nfs(f'{f.args.args[0].arg} == RC_TYPE_TEXT')]
+        ok = len(outer) == 1 and guards and any(g is x for g in guards for x in outer[0].body)
+        rep.ob('R-C08-TEXTLEN', f'{RC}:{fn}', 'the length is demanded for the text code only', bool(ok), node=f, module=rm)
+    # the file answers None for any read at the end of the logical record (PhysRec.readLrBytes), so an empty text that is
+    # the last block of a table must be answered without asking the file
+    f = ix.get_func(RC, 'readRepCode')
+    ln, fobj = f.args.args[2].arg, f.args.args[1].arg
+    g = cfgmod.CFG(f)
+    dom = g.dominators()
+    zero = [n for n in g.stmts() if isinstance(n, ast.If) and show(nf(n.test)) == common.nfs(f'{ln} == 0') and n.body and isinstance(n.body[0], ast.Return)
+            and isinstance(n.body[0].value, ast.Constant) and n.body[0].value.value == b'']
+    reads = [n for n in g.stmts() if any(_n(c.func) == f'{fobj}.readLrBytes' for c in cfgmod.calls_at(n))]
+    ok = len(zero) == 1 and len(reads) == 1 and zero[0] in dom.get(reads[0], ())
+    rep.ob('R-C08-TEXTLEN', f'{RC}:readRepCode', "an empty text (length 0) is b'' without reading: a read at the end of the record answers None", ok,
+           found=f'{len(zero)} zero-length test(s), {len(reads)} read(s)', required=f"if {ln} == 0: return b'' before {fobj}.readLrBytes({ln})", node=f, module=rm)
+    pr = ix.get_func('TotalDepth.LIS.core.PhysRec', 'PhysRecRead.readLrBytes')
+    first = pr.body[0] if pr.body else None
+    ok = isinstance(first, ast.If) and _n(first.test) == 'notself._readOrSkipPreamble()' and isinstance(first.body[0], ast.Return) and _n(first.body[0].value) == 'None'
+    rep.ob('R-C08-TEXTLEN', 'TotalDepth.LIS.core.PhysRec:PhysRecRead.readLrBytes', 'premise: a read at the end of the logical record answers None whatever the size', ok, node=pr, module=ix.module('TotalDepth.LIS.core.PhysRec'))
+    try:
+        v = ix.fold_name(RC, 'RC_TYPE_TEXT')
+    except Exception:
+        v = None
+    rep.ob('R-C08-TEXTLEN', f'{RC}:RC_TYPE_TEXT', 'the text code is 65', v == 65, found=str(v), module=rm)
